@@ -1,700 +1,31 @@
 import SerfModel.Gen.PanicSites
 /-!
-C09, part 1: one theorem per generated panic site (`SerfModel.Gen.PanicSites`, regenerated from
-/repo/serf and /repo/coordinate on every run).  A site is `∀ lengths/indices, path condition → the
-index/slice/division/dereference/map write/channel send/type assertion/contract call is safe`.  If a
-guard disappears from the source the regenerated proposition loses its hypothesis and the theorem
-below no longer builds; if a new panic-capable expression appears in any function reachable from the
-memberlist delegates, `allSites` gains a conjunct and `C09_all_sites` no longer builds.
-(File produced by tools/c09_sites.py from the committed Gen file.)
+C09, part 1: the generated panic-site obligations (`SerfModel.Gen.PanicSites`, regenerated from
+/repo/serf and /repo/coordinate on every run) are discharged AUTOMATICALLY: `C09_all_sites` splits the
+regenerated conjunction `allSites` and proves every conjunct with one generic tactic (`site_tac`:
+introduce the path condition; linear arithmetic, or `Nat.mod_lt` for the `x % len(buffer)` indices).
+Nothing here names a site, a local variable or a statement position, so a behaviour-preserving rewrite
+whose sites are all still guarded re-proves by itself; what fails is exactly an undischargeable site: a
+guard that disappeared from the source, or a new unguarded index/slice/map write/send/… in any
+function reachable from the memberlist delegates.
 -/
 namespace SerfProofs.C09
 open SerfModel.Gen.PanicSites
 
-/-- the generic discharge: introduce the path condition, linear arithmetic. -/
-macro "site_omega" : tactic => `(tactic| (intros; omega))
-
-theorem C09_site_delegate_LocalState_mapwrite_pp_StatusLTimes : site_delegate_LocalState_mapwrite_pp_StatusLTimes := by
-  unfold site_delegate_LocalState_mapwrite_pp_StatusLTimes; site_omega
-
-theorem C09_site_delegate_MergeRemoteState_index_buf_0 : site_delegate_MergeRemoteState_index_buf_0 := by
-  unfold site_delegate_MergeRemoteState_index_buf_0; site_omega
-
-theorem C09_site_delegate_MergeRemoteState_index_buf_0_2 : site_delegate_MergeRemoteState_index_buf_0_2 := by
-  unfold site_delegate_MergeRemoteState_index_buf_0_2; site_omega
-
-theorem C09_site_delegate_MergeRemoteState_slice_buf_1 : site_delegate_MergeRemoteState_slice_buf_1 := by
-  unfold site_delegate_MergeRemoteState_slice_buf_1; site_omega
-
-theorem C09_site_delegate_MergeRemoteState_mapwrite_leftMap : site_delegate_MergeRemoteState_mapwrite_leftMap := by
-  unfold site_delegate_MergeRemoteState_mapwrite_leftMap; site_omega
-
-theorem C09_site_delegate_MergeRemoteState_assert_d_serf_eventJoinIgnore_Load : site_delegate_MergeRemoteState_assert_d_serf_eventJoinIgnore_Load := by
-  unfold site_delegate_MergeRemoteState_assert_d_serf_eventJoinIgnore_Load; site_omega
-
-theorem C09_site_delegate_MergeRemoteState_deref_events : site_delegate_MergeRemoteState_deref_events := by
-  unfold site_delegate_MergeRemoteState_deref_events; site_omega
-
-theorem C09_site_delegate_NodeMeta_panic_ : site_delegate_NodeMeta_panic_ := by
-  unfold site_delegate_NodeMeta_panic_; site_omega
-
-theorem C09_site_delegate_NotifyMsg_index_buf_0 : site_delegate_NotifyMsg_index_buf_0 := by
-  unfold site_delegate_NotifyMsg_index_buf_0; site_omega
-
-theorem C09_site_delegate_NotifyMsg_slice_buf_1 : site_delegate_NotifyMsg_slice_buf_1 := by
-  unfold site_delegate_NotifyMsg_slice_buf_1; site_omega
-
-theorem C09_site_delegate_NotifyMsg_slice_buf_1_2 : site_delegate_NotifyMsg_slice_buf_1_2 := by
-  unfold site_delegate_NotifyMsg_slice_buf_1_2; site_omega
-
-theorem C09_site_delegate_NotifyMsg_slice_buf_1_3 : site_delegate_NotifyMsg_slice_buf_1_3 := by
-  unfold site_delegate_NotifyMsg_slice_buf_1_3; site_omega
-
-theorem C09_site_delegate_NotifyMsg_slice_buf_1_4 : site_delegate_NotifyMsg_slice_buf_1_4 := by
-  unfold site_delegate_NotifyMsg_slice_buf_1_4; site_omega
-
-theorem C09_site_delegate_NotifyMsg_slice_buf_1_5 : site_delegate_NotifyMsg_slice_buf_1_5 := by
-  unfold site_delegate_NotifyMsg_slice_buf_1_5; site_omega
-
-theorem C09_site_delegate_NotifyMsg_slice_buf_1_6 : site_delegate_NotifyMsg_slice_buf_1_6 := by
-  unfold site_delegate_NotifyMsg_slice_buf_1_6; site_omega
-
-theorem C09_site_mergeDelegate_NotifyMerge_index_members_idx : site_mergeDelegate_NotifyMerge_index_members_idx := by
-  unfold site_mergeDelegate_NotifyMerge_index_members_idx; site_omega
-
-theorem C09_site_pingDelegate_NotifyPingComplete_index_payload_0 : site_pingDelegate_NotifyPingComplete_index_payload_0 := by
-  unfold site_pingDelegate_NotifyPingComplete_index_payload_0; site_omega
-
-theorem C09_site_pingDelegate_NotifyPingComplete_slice_payload_1 : site_pingDelegate_NotifyPingComplete_slice_payload_1 := by
-  unfold site_pingDelegate_NotifyPingComplete_slice_payload_1; site_omega
-
-theorem C09_site_pingDelegate_NotifyPingComplete_call_Client_Update : site_pingDelegate_NotifyPingComplete_call_Client_Update := by
-  unfold site_pingDelegate_NotifyPingComplete_call_Client_Update; site_omega
-
-theorem C09_site_pingDelegate_NotifyPingComplete_call_Coordinate_DistanceTo : site_pingDelegate_NotifyPingComplete_call_Coordinate_DistanceTo := by
-  unfold site_pingDelegate_NotifyPingComplete_call_Coordinate_DistanceTo; site_omega
-
-theorem C09_site_pingDelegate_NotifyPingComplete_mapwrite_p_serf_coordCache : site_pingDelegate_NotifyPingComplete_mapwrite_p_serf_coordCache := by
-  unfold site_pingDelegate_NotifyPingComplete_mapwrite_p_serf_coordCache; site_omega
-
-theorem C09_site_pingDelegate_NotifyPingComplete_mapwrite_p_serf_coordCache_2 : site_pingDelegate_NotifyPingComplete_mapwrite_p_serf_coordCache_2 := by
-  unfold site_pingDelegate_NotifyPingComplete_mapwrite_p_serf_coordCache_2; site_omega
-
-theorem C09_site_serfQueries_stream_send_s_outCh : site_serfQueries_stream_send_s_outCh := by
-  unfold site_serfQueries_stream_send_s_outCh; site_omega
-
-theorem C09_site_serf_coalesceLoop_send_outCh : site_serf_coalesceLoop_send_outCh := by
-  unfold site_serf_coalesceLoop_send_outCh; site_omega
-
-theorem C09_site_KeyManager_streamKeyResp_index_r_Payload_0 : site_KeyManager_streamKeyResp_index_r_Payload_0 := by
-  unfold site_KeyManager_streamKeyResp_index_r_Payload_0; site_omega
-
-theorem C09_site_KeyManager_streamKeyResp_mapwrite_resp_Messages : site_KeyManager_streamKeyResp_mapwrite_resp_Messages := by
-  unfold site_KeyManager_streamKeyResp_mapwrite_resp_Messages; site_omega
-
-theorem C09_site_KeyManager_streamKeyResp_slice_r_Payload_1 : site_KeyManager_streamKeyResp_slice_r_Payload_1 := by
-  unfold site_KeyManager_streamKeyResp_slice_r_Payload_1; site_omega
-
-theorem C09_site_KeyManager_streamKeyResp_mapwrite_resp_Messages_2 : site_KeyManager_streamKeyResp_mapwrite_resp_Messages_2 := by
-  unfold site_KeyManager_streamKeyResp_mapwrite_resp_Messages_2; site_omega
-
-theorem C09_site_KeyManager_streamKeyResp_mapwrite_resp_Messages_3 : site_KeyManager_streamKeyResp_mapwrite_resp_Messages_3 := by
-  unfold site_KeyManager_streamKeyResp_mapwrite_resp_Messages_3; site_omega
-
-theorem C09_site_KeyManager_streamKeyResp_mapwrite_resp_Messages_4 : site_KeyManager_streamKeyResp_mapwrite_resp_Messages_4 := by
-  unfold site_KeyManager_streamKeyResp_mapwrite_resp_Messages_4; site_omega
-
-theorem C09_site_Snapshotter_teeStream_send_s_streamCh : site_Snapshotter_teeStream_send_s_streamCh := by
-  unfold site_Snapshotter_teeStream_send_s_streamCh; site_omega
-
-theorem C09_site_Snapshotter_teeStream_send_s_outCh : site_Snapshotter_teeStream_send_s_outCh := by
-  unfold site_Snapshotter_teeStream_send_s_outCh; site_omega
-
-theorem C09_site_Serf_handleNodeLeaveIntent_call_upsertIntent : site_Serf_handleNodeLeaveIntent_call_upsertIntent := by
-  unfold site_Serf_handleNodeLeaveIntent_call_upsertIntent; site_omega
-
-theorem C09_site_Serf_handleNodeLeaveIntent_deref_member : site_Serf_handleNodeLeaveIntent_deref_member := by
-  unfold site_Serf_handleNodeLeaveIntent_deref_member; site_omega
-
-theorem C09_site_Serf_handleNodeLeaveIntent_send_s_config_EventCh : site_Serf_handleNodeLeaveIntent_send_s_config_EventCh := by
-  unfold site_Serf_handleNodeLeaveIntent_send_s_config_EventCh; site_omega
-
-theorem C09_site_Serf_handleNodeJoinIntent_call_upsertIntent : site_Serf_handleNodeJoinIntent_call_upsertIntent := by
-  unfold site_Serf_handleNodeJoinIntent_call_upsertIntent; site_omega
-
-theorem C09_site_Serf_handleNodeJoinIntent_deref_member : site_Serf_handleNodeJoinIntent_deref_member := by
-  unfold site_Serf_handleNodeJoinIntent_deref_member; site_omega
-
-theorem C09_site_Serf_handleUserEvent_div_LamportTime_len_s_eventBuffer : site_Serf_handleUserEvent_div_LamportTime_len_s_eventBuffer := by
-  unfold site_Serf_handleUserEvent_div_LamportTime_len_s_eventBuffer; site_omega
-
-theorem C09_site_Serf_handleUserEvent_index_s_eventBuffer_idx : site_Serf_handleUserEvent_index_s_eventBuffer_idx := by
-  unfold site_Serf_handleUserEvent_index_s_eventBuffer_idx
-  intros; subst_vars; exact Nat.mod_lt _ (by assumption)
-
-theorem C09_site_Serf_handleUserEvent_deref_seen : site_Serf_handleUserEvent_deref_seen := by
-  unfold site_Serf_handleUserEvent_deref_seen; site_omega
-
-theorem C09_site_Serf_handleUserEvent_deref_seen_2 : site_Serf_handleUserEvent_deref_seen_2 := by
-  unfold site_Serf_handleUserEvent_deref_seen_2; site_omega
-
-theorem C09_site_Serf_handleUserEvent_index_s_eventBuffer_idx_2 : site_Serf_handleUserEvent_index_s_eventBuffer_idx_2 := by
-  unfold site_Serf_handleUserEvent_index_s_eventBuffer_idx_2
-  intros; subst_vars; exact Nat.mod_lt _ (by assumption)
-
-theorem C09_site_Serf_handleUserEvent_deref_seen_3 : site_Serf_handleUserEvent_deref_seen_3 := by
-  unfold site_Serf_handleUserEvent_deref_seen_3; site_omega
-
-theorem C09_site_Serf_handleUserEvent_send_s_config_EventCh : site_Serf_handleUserEvent_send_s_config_EventCh := by
-  unfold site_Serf_handleUserEvent_send_s_config_EventCh; site_omega
-
-theorem C09_site_Serf_encodeTags_panic_ : site_Serf_encodeTags_panic_ := by
-  unfold site_Serf_encodeTags_panic_; site_omega
-
-theorem C09_site_Serf_handleQuery_div_LamportTime_len_s_queryBuffer : site_Serf_handleQuery_div_LamportTime_len_s_queryBuffer := by
-  unfold site_Serf_handleQuery_div_LamportTime_len_s_queryBuffer; site_omega
-
-theorem C09_site_Serf_handleQuery_index_s_queryBuffer_idx : site_Serf_handleQuery_index_s_queryBuffer_idx := by
-  unfold site_Serf_handleQuery_index_s_queryBuffer_idx
-  intros; subst_vars; exact Nat.mod_lt _ (by assumption)
-
-theorem C09_site_Serf_handleQuery_deref_seen : site_Serf_handleQuery_deref_seen := by
-  unfold site_Serf_handleQuery_deref_seen; site_omega
-
-theorem C09_site_Serf_handleQuery_deref_seen_2 : site_Serf_handleQuery_deref_seen_2 := by
-  unfold site_Serf_handleQuery_deref_seen_2; site_omega
-
-theorem C09_site_Serf_handleQuery_index_s_queryBuffer_idx_2 : site_Serf_handleQuery_index_s_queryBuffer_idx_2 := by
-  unfold site_Serf_handleQuery_index_s_queryBuffer_idx_2
-  intros; subst_vars; exact Nat.mod_lt _ (by assumption)
-
-theorem C09_site_Serf_handleQuery_deref_seen_3 : site_Serf_handleQuery_deref_seen_3 := by
-  unfold site_Serf_handleQuery_deref_seen_3; site_omega
-
-theorem C09_site_Serf_handleQuery_send_s_config_EventCh : site_Serf_handleQuery_send_s_config_EventCh := by
-  unfold site_Serf_handleQuery_send_s_config_EventCh; site_omega
-
-theorem C09_site_Serf_handleQueryResponse_deref_query : site_Serf_handleQueryResponse_deref_query := by
-  unfold site_Serf_handleQueryResponse_deref_query; site_omega
-
-theorem C09_site_Serf_handleNodeJoin_deref_member : site_Serf_handleNodeJoin_deref_member := by
-  unfold site_Serf_handleNodeJoin_deref_member; site_omega
-
-theorem C09_site_Serf_handleNodeJoin_deref_member_2 : site_Serf_handleNodeJoin_deref_member_2 := by
-  unfold site_Serf_handleNodeJoin_deref_member_2; site_omega
-
-theorem C09_site_Serf_handleNodeJoin_mapwrite_s_members : site_Serf_handleNodeJoin_mapwrite_s_members := by
-  unfold site_Serf_handleNodeJoin_mapwrite_s_members; site_omega
-
-theorem C09_site_Serf_handleNodeJoin_deref_member_3 : site_Serf_handleNodeJoin_deref_member_3 := by
-  unfold site_Serf_handleNodeJoin_deref_member_3; site_omega
-
-theorem C09_site_Serf_handleNodeJoin_deref_member_4 : site_Serf_handleNodeJoin_deref_member_4 := by
-  unfold site_Serf_handleNodeJoin_deref_member_4; site_omega
-
-theorem C09_site_Serf_handleNodeJoin_send_s_config_EventCh : site_Serf_handleNodeJoin_send_s_config_EventCh := by
-  unfold site_Serf_handleNodeJoin_send_s_config_EventCh; site_omega
-
-theorem C09_site_Serf_handleNodeLeave_deref_member : site_Serf_handleNodeLeave_deref_member := by
-  unfold site_Serf_handleNodeLeave_deref_member; site_omega
-
-theorem C09_site_Serf_handleNodeLeave_call_MemberStatus_String : site_Serf_handleNodeLeave_call_MemberStatus_String := by
-  unfold site_Serf_handleNodeLeave_call_MemberStatus_String; site_omega
-
-theorem C09_site_Serf_handleNodeLeave_send_s_config_EventCh : site_Serf_handleNodeLeave_send_s_config_EventCh := by
-  unfold site_Serf_handleNodeLeave_send_s_config_EventCh; site_omega
-
-theorem C09_site_Serf_handleNodeUpdate_deref_member : site_Serf_handleNodeUpdate_deref_member := by
-  unfold site_Serf_handleNodeUpdate_deref_member; site_omega
-
-theorem C09_site_Serf_handleNodeUpdate_send_s_config_EventCh : site_Serf_handleNodeUpdate_send_s_config_EventCh := by
-  unfold site_Serf_handleNodeUpdate_send_s_config_EventCh; site_omega
-
-theorem C09_site_Serf_decodeTags_index_buf_0 : site_Serf_decodeTags_index_buf_0 := by
-  unfold site_Serf_decodeTags_index_buf_0; site_omega
-
-theorem C09_site_Serf_decodeTags_mapwrite_tags : site_Serf_decodeTags_mapwrite_tags := by
-  unfold site_Serf_decodeTags_mapwrite_tags; site_omega
-
-theorem C09_site_Serf_decodeTags_slice_buf_1 : site_Serf_decodeTags_slice_buf_1 := by
-  unfold site_Serf_decodeTags_slice_buf_1; site_omega
-
-theorem C09_site_Client_GetCoordinate_inv_exit : site_Client_GetCoordinate_inv_exit := by
-  unfold site_Client_GetCoordinate_inv_exit; site_omega
-
-theorem C09_site_Client_GetCoordinate_ensures_vec : site_Client_GetCoordinate_ensures_vec := by
-  unfold site_Client_GetCoordinate_ensures_vec; site_omega
-
-theorem C09_site_Client_Update_inv_exit : site_Client_Update_inv_exit := by
-  unfold site_Client_Update_inv_exit; site_omega
-
-theorem C09_site_Client_Update_inv_exit_2 : site_Client_Update_inv_exit_2 := by
-  unfold site_Client_Update_inv_exit_2; site_omega
-
-theorem C09_site_Client_Update_call_Client_latencyFilter : site_Client_Update_call_Client_latencyFilter := by
-  unfold site_Client_Update_call_Client_latencyFilter; site_omega
-
-theorem C09_site_Client_Update_call_Client_updateVivaldi : site_Client_Update_call_Client_updateVivaldi := by
-  unfold site_Client_Update_call_Client_updateVivaldi; site_omega
-
-theorem C09_site_Client_Update_call_Client_updateAdjustment : site_Client_Update_call_Client_updateAdjustment := by
-  unfold site_Client_Update_call_Client_updateAdjustment; site_omega
-
-theorem C09_site_Client_Update_inv_exit_3 : site_Client_Update_inv_exit_3 := by
-  unfold site_Client_Update_inv_exit_3; site_omega
-
-theorem C09_site_Client_Update_ensures_vec : site_Client_Update_ensures_vec := by
-  unfold site_Client_Update_ensures_vec; site_omega
-
-theorem C09_site_Coordinate_DistanceTo_panic_ : site_Coordinate_DistanceTo_panic_ := by
-  unfold site_Coordinate_DistanceTo_panic_; site_omega
-
-theorem C09_site_Coordinate_DistanceTo_call_Coordinate_rawDistanceTo : site_Coordinate_DistanceTo_call_Coordinate_rawDistanceTo := by
-  unfold site_Coordinate_DistanceTo_call_Coordinate_rawDistanceTo; site_omega
-
-theorem C09_site_serfQueries_handleQuery_slice_q_Name_len_InternalQueryPrefix : site_serfQueries_handleQuery_slice_q_Name_len_InternalQueryPrefix := by
-  unfold site_serfQueries_handleQuery_slice_q_Name_len_InternalQueryPrefix; site_omega
-
-theorem C09_site_userEventCoalescer_Handle_assert_e : site_userEventCoalescer_Handle_assert_e := by
-  unfold site_userEventCoalescer_Handle_assert_e; site_omega
-
-theorem C09_site_memberEventCoalescer_Coalesce_assert_raw : site_memberEventCoalescer_Coalesce_assert_raw := by
-  unfold site_memberEventCoalescer_Coalesce_assert_raw; site_omega
-
-theorem C09_site_memberEventCoalescer_Coalesce_mapwrite_c_latestEvents : site_memberEventCoalescer_Coalesce_mapwrite_c_latestEvents := by
-  unfold site_memberEventCoalescer_Coalesce_mapwrite_c_latestEvents; site_omega
-
-theorem C09_site_userEventCoalescer_Coalesce_assert_e : site_userEventCoalescer_Coalesce_assert_e := by
-  unfold site_userEventCoalescer_Coalesce_assert_e; site_omega
-
-theorem C09_site_userEventCoalescer_Coalesce_deref_latest : site_userEventCoalescer_Coalesce_deref_latest := by
-  unfold site_userEventCoalescer_Coalesce_deref_latest; site_omega
-
-theorem C09_site_userEventCoalescer_Coalesce_mapwrite_c_events : site_userEventCoalescer_Coalesce_mapwrite_c_events := by
-  unfold site_userEventCoalescer_Coalesce_mapwrite_c_events; site_omega
-
-theorem C09_site_userEventCoalescer_Coalesce_deref_latest_2 : site_userEventCoalescer_Coalesce_deref_latest_2 := by
-  unfold site_userEventCoalescer_Coalesce_deref_latest_2; site_omega
-
-theorem C09_site_memberEventCoalescer_Flush_mapwrite_c_lastEvents : site_memberEventCoalescer_Flush_mapwrite_c_lastEvents := by
-  unfold site_memberEventCoalescer_Flush_mapwrite_c_lastEvents; site_omega
-
-theorem C09_site_memberEventCoalescer_Flush_mapwrite_events : site_memberEventCoalescer_Flush_mapwrite_events := by
-  unfold site_memberEventCoalescer_Flush_mapwrite_events; site_omega
-
-theorem C09_site_memberEventCoalescer_Flush_deref_newEvent : site_memberEventCoalescer_Flush_deref_newEvent := by
-  unfold site_memberEventCoalescer_Flush_deref_newEvent; site_omega
-
-theorem C09_site_memberEventCoalescer_Flush_send_outCh : site_memberEventCoalescer_Flush_send_outCh := by
-  unfold site_memberEventCoalescer_Flush_send_outCh; site_omega
-
-theorem C09_site_userEventCoalescer_Flush_send_outChan : site_userEventCoalescer_Flush_send_outChan := by
-  unfold site_userEventCoalescer_Flush_send_outChan; site_omega
-
-theorem C09_site_Snapshotter_processMemberEvent_mapwrite_s_aliveNodes : site_Snapshotter_processMemberEvent_mapwrite_s_aliveNodes := by
-  unfold site_Snapshotter_processMemberEvent_mapwrite_s_aliveNodes; site_omega
-
-theorem C09_site_Serf_resolveNodeConflict_index_r_Payload_0 : site_Serf_resolveNodeConflict_index_r_Payload_0 := by
-  unfold site_Serf_resolveNodeConflict_index_r_Payload_0; site_omega
-
-theorem C09_site_Serf_resolveNodeConflict_slice_r_Payload_1 : site_Serf_resolveNodeConflict_slice_r_Payload_1 := by
-  unfold site_Serf_resolveNodeConflict_slice_r_Payload_1; site_omega
-
-theorem C09_site_serf_upsertIntent_mapwrite_intents : site_serf_upsertIntent_mapwrite_intents := by
-  unfold site_serf_upsertIntent_mapwrite_intents; site_omega
-
-theorem C09_site_serf_removeOldMember_index_old_n_1 : site_serf_removeOldMember_index_old_n_1 := by
-  unfold site_serf_removeOldMember_index_old_n_1; site_omega
-
-theorem C09_site_serf_removeOldMember_index_old_i : site_serf_removeOldMember_index_old_i := by
-  unfold site_serf_removeOldMember_index_old_i; site_omega
-
-theorem C09_site_serf_removeOldMember_index_old_n_1_2 : site_serf_removeOldMember_index_old_n_1_2 := by
-  unfold site_serf_removeOldMember_index_old_n_1_2; site_omega
-
-theorem C09_site_serf_removeOldMember_slice_old_n_1 : site_serf_removeOldMember_slice_old_n_1 := by
-  unfold site_serf_removeOldMember_slice_old_n_1; site_omega
-
-theorem C09_site_Serf_shouldProcessQuery_index_filter_0 : site_Serf_shouldProcessQuery_index_filter_0 := by
-  unfold site_Serf_shouldProcessQuery_index_filter_0; site_omega
-
-theorem C09_site_Serf_shouldProcessQuery_slice_filter_1 : site_Serf_shouldProcessQuery_slice_filter_1 := by
-  unfold site_Serf_shouldProcessQuery_slice_filter_1; site_omega
-
-theorem C09_site_Serf_shouldProcessQuery_slice_filter_1_2 : site_Serf_shouldProcessQuery_slice_filter_1_2 := by
-  unfold site_Serf_shouldProcessQuery_slice_filter_1_2; site_omega
-
-theorem C09_site_Serf_shouldProcessQuery_index_filter_0_2 : site_Serf_shouldProcessQuery_index_filter_0_2 := by
-  unfold site_Serf_shouldProcessQuery_index_filter_0_2; site_omega
-
-theorem C09_site_QueryResponse_sendAck_send_r_ackCh : site_QueryResponse_sendAck_send_r_ackCh := by
-  unfold site_QueryResponse_sendAck_send_r_ackCh; site_omega
-
-theorem C09_site_QueryResponse_sendAck_mapwrite_r_acks : site_QueryResponse_sendAck_mapwrite_r_acks := by
-  unfold site_QueryResponse_sendAck_mapwrite_r_acks; site_omega
-
-theorem C09_site_QueryResponse_sendResponse_send_r_respCh : site_QueryResponse_sendResponse_send_r_respCh := by
-  unfold site_QueryResponse_sendResponse_send_r_respCh; site_omega
-
-theorem C09_site_QueryResponse_sendResponse_mapwrite_r_responses : site_QueryResponse_sendResponse_mapwrite_r_responses := by
-  unfold site_QueryResponse_sendResponse_mapwrite_r_responses; site_omega
-
-theorem C09_site_MemberStatus_String_panic_ : site_MemberStatus_String_panic_ := by
-  unfold site_MemberStatus_String_panic_; site_omega
-
-theorem C09_site_Coordinate_Clone_ensures_vec : site_Coordinate_Clone_ensures_vec := by
-  unfold site_Coordinate_Clone_ensures_vec; site_omega
-
-theorem C09_site_Client_checkCoordinate_inv_exit : site_Client_checkCoordinate_inv_exit := by
-  unfold site_Client_checkCoordinate_inv_exit; site_omega
-
-theorem C09_site_Client_checkCoordinate_inv_exit_2 : site_Client_checkCoordinate_inv_exit_2 := by
-  unfold site_Client_checkCoordinate_inv_exit_2; site_omega
-
-theorem C09_site_Client_checkCoordinate_inv_exit_3 : site_Client_checkCoordinate_inv_exit_3 := by
-  unfold site_Client_checkCoordinate_inv_exit_3; site_omega
-
-theorem C09_site_Client_checkCoordinate_ensures_ok : site_Client_checkCoordinate_ensures_ok := by
-  unfold site_Client_checkCoordinate_ensures_ok; site_omega
-
-theorem C09_site_Client_latencyFilter_slice_samples_1 : site_Client_latencyFilter_slice_samples_1 := by
-  unfold site_Client_latencyFilter_slice_samples_1; site_omega
-
-theorem C09_site_Client_latencyFilter_mapwrite_c_latencyFilterSamples : site_Client_latencyFilter_mapwrite_c_latencyFilterSamples := by
-  unfold site_Client_latencyFilter_mapwrite_c_latencyFilterSamples; site_omega
-
-theorem C09_site_Client_latencyFilter_index_sorted_len_sorted_2 : site_Client_latencyFilter_index_sorted_len_sorted_2 := by
-  unfold site_Client_latencyFilter_index_sorted_len_sorted_2; site_omega
-
-theorem C09_site_Client_latencyFilter_inv_exit : site_Client_latencyFilter_inv_exit := by
-  unfold site_Client_latencyFilter_inv_exit; site_omega
-
-theorem C09_site_Client_updateVivaldi_call_Coordinate_DistanceTo : site_Client_updateVivaldi_call_Coordinate_DistanceTo := by
-  unfold site_Client_updateVivaldi_call_Coordinate_DistanceTo; site_omega
-
-theorem C09_site_Client_updateVivaldi_call_Coordinate_ApplyForce : site_Client_updateVivaldi_call_Coordinate_ApplyForce := by
-  unfold site_Client_updateVivaldi_call_Coordinate_ApplyForce; site_omega
-
-theorem C09_site_Client_updateVivaldi_inv_exit : site_Client_updateVivaldi_inv_exit := by
-  unfold site_Client_updateVivaldi_inv_exit; site_omega
-
-theorem C09_site_Client_updateAdjustment_inv_exit : site_Client_updateAdjustment_inv_exit := by
-  unfold site_Client_updateAdjustment_inv_exit; site_omega
-
-theorem C09_site_Client_updateAdjustment_call_Coordinate_rawDistanceTo : site_Client_updateAdjustment_call_Coordinate_rawDistanceTo := by
-  unfold site_Client_updateAdjustment_call_Coordinate_rawDistanceTo; site_omega
-
-theorem C09_site_Client_updateAdjustment_index_c_adjustmentSamples_c_adjustmentIndex : site_Client_updateAdjustment_index_c_adjustmentSamples_c_adjustmentIndex := by
-  unfold site_Client_updateAdjustment_index_c_adjustmentSamples_c_adjustmentIndex; site_omega
-
-theorem C09_site_Client_updateAdjustment_div_c_config_AdjustmentWindowSize : site_Client_updateAdjustment_div_c_config_AdjustmentWindowSize := by
-  unfold site_Client_updateAdjustment_div_c_config_AdjustmentWindowSize; site_omega
-
-theorem C09_site_Client_updateAdjustment_inv_exit_2 : site_Client_updateAdjustment_inv_exit_2 := by
-  unfold site_Client_updateAdjustment_inv_exit_2
-  intro a b c d e i i1 w dim _ hinv hw hi
-  have hm : (i + 1) % w < w := Nat.mod_lt _ (by omega)
-  refine ⟨hinv.1, hinv.2.1, hinv.2.2.1, hinv.2.2.2.1, hinv.2.2.2.2.1, ?_⟩
-  intro _; omega
-
-theorem C09_site_Client_updateGravity_call_Coordinate_DistanceTo : site_Client_updateGravity_call_Coordinate_DistanceTo := by
-  unfold site_Client_updateGravity_call_Coordinate_DistanceTo; site_omega
-
-theorem C09_site_Client_updateGravity_call_Coordinate_ApplyForce : site_Client_updateGravity_call_Coordinate_ApplyForce := by
-  unfold site_Client_updateGravity_call_Coordinate_ApplyForce; site_omega
-
-theorem C09_site_Client_updateGravity_inv_exit : site_Client_updateGravity_inv_exit := by
-  unfold site_Client_updateGravity_inv_exit; site_omega
-
-theorem C09_site_Coordinate_IsValid_index_c_Vec_i : site_Coordinate_IsValid_index_c_Vec_i := by
-  unfold site_Coordinate_IsValid_index_c_Vec_i; site_omega
-
-theorem C09_site_coordinate_NewCoordinate_ensures_vec : site_coordinate_NewCoordinate_ensures_vec := by
-  unfold site_coordinate_NewCoordinate_ensures_vec; site_omega
-
-theorem C09_site_Coordinate_rawDistanceTo_call_diff : site_Coordinate_rawDistanceTo_call_diff := by
-  unfold site_Coordinate_rawDistanceTo_call_diff; site_omega
-
-theorem C09_site_serfQueries_handleConflict_deref_member : site_serfQueries_handleConflict_deref_member := by
-  unfold site_serfQueries_handleConflict_deref_member; site_omega
-
-theorem C09_site_serfQueries_handleInstallKey_slice_q_Payload_1 : site_serfQueries_handleInstallKey_slice_q_Payload_1 := by
-  unfold site_serfQueries_handleInstallKey_slice_q_Payload_1; site_omega
-
-theorem C09_site_serfQueries_handleUseKey_slice_q_Payload_1 : site_serfQueries_handleUseKey_slice_q_Payload_1 := by
-  unfold site_serfQueries_handleUseKey_slice_q_Payload_1; site_omega
-
-theorem C09_site_serfQueries_handleRemoveKey_slice_q_Payload_1 : site_serfQueries_handleRemoveKey_slice_q_Payload_1 := by
-  unfold site_serfQueries_handleRemoveKey_slice_q_Payload_1; site_omega
-
-theorem C09_site_Serf_eraseNode_send_s_config_EventCh : site_Serf_eraseNode_send_s_config_EventCh := by
-  unfold site_Serf_eraseNode_send_s_config_EventCh; site_omega
-
-theorem C09_site_serf_kRandomMembers_call_rand_Intn : site_serf_kRandomMembers_call_rand_Intn := by
-  unfold site_serf_kRandomMembers_call_rand_Intn; site_omega
-
-theorem C09_site_serf_kRandomMembers_index_members_idx : site_serf_kRandomMembers_index_members_idx := by
-  unfold site_serf_kRandomMembers_index_members_idx; site_omega
-
-theorem C09_site_serf_kRandomMembers_index_kMembers_j : site_serf_kRandomMembers_index_kMembers_j := by
-  unfold site_serf_kRandomMembers_index_kMembers_j; site_omega
-
-theorem C09_site_Coordinate_ApplyForce_panic_ : site_Coordinate_ApplyForce_panic_ := by
-  unfold site_Coordinate_ApplyForce_panic_; site_omega
-
-theorem C09_site_Coordinate_ApplyForce_call_unitVectorAt : site_Coordinate_ApplyForce_call_unitVectorAt := by
-  unfold site_Coordinate_ApplyForce_call_unitVectorAt; site_omega
-
-theorem C09_site_Coordinate_ApplyForce_call_add : site_Coordinate_ApplyForce_call_add := by
-  unfold site_Coordinate_ApplyForce_call_add; site_omega
-
-theorem C09_site_Coordinate_ApplyForce_ensures_vec : site_Coordinate_ApplyForce_ensures_vec := by
-  unfold site_Coordinate_ApplyForce_ensures_vec; site_omega
-
-theorem C09_site_coordinate_diff_index_vec1_i : site_coordinate_diff_index_vec1_i := by
-  unfold site_coordinate_diff_index_vec1_i; site_omega
-
-theorem C09_site_coordinate_diff_index_vec2_i : site_coordinate_diff_index_vec2_i := by
-  unfold site_coordinate_diff_index_vec2_i; site_omega
-
-theorem C09_site_coordinate_diff_index_ret_i : site_coordinate_diff_index_ret_i := by
-  unfold site_coordinate_diff_index_ret_i; site_omega
-
-theorem C09_site_coordinate_diff_ensures_len : site_coordinate_diff_ensures_len := by
-  unfold site_coordinate_diff_ensures_len; site_omega
-
-theorem C09_site_coordinate_magnitude_index_vec_i : site_coordinate_magnitude_index_vec_i := by
-  unfold site_coordinate_magnitude_index_vec_i; site_omega
-
-theorem C09_site_coordinate_magnitude_index_vec_i_2 : site_coordinate_magnitude_index_vec_i_2 := by
-  unfold site_coordinate_magnitude_index_vec_i_2; site_omega
-
-theorem C09_site_Serf_writeKeyringFile_index_keysEncoded_i : site_Serf_writeKeyringFile_index_keysEncoded_i := by
-  unfold site_Serf_writeKeyringFile_index_keysEncoded_i; site_omega
-
-theorem C09_site_Serf_registerQueryResponse_mapwrite_s_queryResponse : site_Serf_registerQueryResponse_mapwrite_s_queryResponse := by
-  unfold site_Serf_registerQueryResponse_mapwrite_s_queryResponse; site_omega
-
-theorem C09_site_coordinate_unitVectorAt_call_diff : site_coordinate_unitVectorAt_call_diff := by
-  unfold site_coordinate_unitVectorAt_call_diff; site_omega
-
-theorem C09_site_coordinate_unitVectorAt_ensures_len : site_coordinate_unitVectorAt_ensures_len := by
-  unfold site_coordinate_unitVectorAt_ensures_len; site_omega
-
-theorem C09_site_coordinate_unitVectorAt_index_ret_i : site_coordinate_unitVectorAt_index_ret_i := by
-  unfold site_coordinate_unitVectorAt_index_ret_i; site_omega
-
-theorem C09_site_coordinate_unitVectorAt_index_ret_i_2 : site_coordinate_unitVectorAt_index_ret_i_2 := by
-  unfold site_coordinate_unitVectorAt_index_ret_i_2; site_omega
-
-theorem C09_site_coordinate_unitVectorAt_ensures_len_2 : site_coordinate_unitVectorAt_ensures_len_2 := by
-  unfold site_coordinate_unitVectorAt_ensures_len_2; site_omega
-
-theorem C09_site_coordinate_unitVectorAt_index_ret_0 : site_coordinate_unitVectorAt_index_ret_0 := by
-  unfold site_coordinate_unitVectorAt_index_ret_0; site_omega
-
-theorem C09_site_coordinate_unitVectorAt_ensures_len_3 : site_coordinate_unitVectorAt_ensures_len_3 := by
-  unfold site_coordinate_unitVectorAt_ensures_len_3; site_omega
-
-theorem C09_site_coordinate_mul_index_vec_i : site_coordinate_mul_index_vec_i := by
-  unfold site_coordinate_mul_index_vec_i; site_omega
-
-theorem C09_site_coordinate_mul_index_ret_i : site_coordinate_mul_index_ret_i := by
-  unfold site_coordinate_mul_index_ret_i; site_omega
-
-theorem C09_site_coordinate_mul_ensures_len : site_coordinate_mul_ensures_len := by
-  unfold site_coordinate_mul_ensures_len; site_omega
-
-theorem C09_site_coordinate_add_index_vec1_i : site_coordinate_add_index_vec1_i := by
-  unfold site_coordinate_add_index_vec1_i; site_omega
-
-theorem C09_site_coordinate_add_index_vec2_i : site_coordinate_add_index_vec2_i := by
-  unfold site_coordinate_add_index_vec2_i; site_omega
-
-theorem C09_site_coordinate_add_index_ret_i : site_coordinate_add_index_ret_i := by
-  unfold site_coordinate_add_index_ret_i; site_omega
-
-theorem C09_site_coordinate_add_ensures_len : site_coordinate_add_ensures_len := by
-  unfold site_coordinate_add_ensures_len; site_omega
-
-theorem C09_site_serfQueries_keyListResponseWithCorrectSize_loopinv_init_resp_Keys : site_serfQueries_keyListResponseWithCorrectSize_loopinv_init_resp_Keys := by
-  unfold site_serfQueries_keyListResponseWithCorrectSize_loopinv_init_resp_Keys; site_omega
-
-theorem C09_site_serfQueries_keyListResponseWithCorrectSize_loopinv_step_resp_Keys : site_serfQueries_keyListResponseWithCorrectSize_loopinv_step_resp_Keys := by
-  unfold site_serfQueries_keyListResponseWithCorrectSize_loopinv_step_resp_Keys; site_omega
-
-theorem C09_site_serfQueries_keyListResponseWithCorrectSize_slice_resp_Keys_0_i : site_serfQueries_keyListResponseWithCorrectSize_slice_resp_Keys_0_i := by
-  unfold site_serfQueries_keyListResponseWithCorrectSize_slice_resp_Keys_0_i; site_omega
-
-/-- every panic site the extractor lists is safe under its path condition -/
-theorem C09_all_sites : allSites :=
-  ⟨C09_site_delegate_LocalState_mapwrite_pp_StatusLTimes,
-   C09_site_delegate_MergeRemoteState_index_buf_0,
-   C09_site_delegate_MergeRemoteState_index_buf_0_2,
-   C09_site_delegate_MergeRemoteState_slice_buf_1,
-   C09_site_delegate_MergeRemoteState_mapwrite_leftMap,
-   C09_site_delegate_MergeRemoteState_assert_d_serf_eventJoinIgnore_Load,
-   C09_site_delegate_MergeRemoteState_deref_events,
-   C09_site_delegate_NodeMeta_panic_,
-   C09_site_delegate_NotifyMsg_index_buf_0,
-   C09_site_delegate_NotifyMsg_slice_buf_1,
-   C09_site_delegate_NotifyMsg_slice_buf_1_2,
-   C09_site_delegate_NotifyMsg_slice_buf_1_3,
-   C09_site_delegate_NotifyMsg_slice_buf_1_4,
-   C09_site_delegate_NotifyMsg_slice_buf_1_5,
-   C09_site_delegate_NotifyMsg_slice_buf_1_6,
-   C09_site_mergeDelegate_NotifyMerge_index_members_idx,
-   C09_site_pingDelegate_NotifyPingComplete_index_payload_0,
-   C09_site_pingDelegate_NotifyPingComplete_slice_payload_1,
-   C09_site_pingDelegate_NotifyPingComplete_call_Client_Update,
-   C09_site_pingDelegate_NotifyPingComplete_call_Coordinate_DistanceTo,
-   C09_site_pingDelegate_NotifyPingComplete_mapwrite_p_serf_coordCache,
-   C09_site_pingDelegate_NotifyPingComplete_mapwrite_p_serf_coordCache_2,
-   C09_site_serfQueries_stream_send_s_outCh,
-   C09_site_serf_coalesceLoop_send_outCh,
-   C09_site_KeyManager_streamKeyResp_index_r_Payload_0,
-   C09_site_KeyManager_streamKeyResp_mapwrite_resp_Messages,
-   C09_site_KeyManager_streamKeyResp_slice_r_Payload_1,
-   C09_site_KeyManager_streamKeyResp_mapwrite_resp_Messages_2,
-   C09_site_KeyManager_streamKeyResp_mapwrite_resp_Messages_3,
-   C09_site_KeyManager_streamKeyResp_mapwrite_resp_Messages_4,
-   C09_site_Snapshotter_teeStream_send_s_streamCh,
-   C09_site_Snapshotter_teeStream_send_s_outCh,
-   C09_site_Serf_handleNodeLeaveIntent_call_upsertIntent,
-   C09_site_Serf_handleNodeLeaveIntent_deref_member,
-   C09_site_Serf_handleNodeLeaveIntent_send_s_config_EventCh,
-   C09_site_Serf_handleNodeJoinIntent_call_upsertIntent,
-   C09_site_Serf_handleNodeJoinIntent_deref_member,
-   C09_site_Serf_handleUserEvent_div_LamportTime_len_s_eventBuffer,
-   C09_site_Serf_handleUserEvent_index_s_eventBuffer_idx,
-   C09_site_Serf_handleUserEvent_deref_seen,
-   C09_site_Serf_handleUserEvent_deref_seen_2,
-   C09_site_Serf_handleUserEvent_index_s_eventBuffer_idx_2,
-   C09_site_Serf_handleUserEvent_deref_seen_3,
-   C09_site_Serf_handleUserEvent_send_s_config_EventCh,
-   C09_site_Serf_encodeTags_panic_,
-   C09_site_Serf_handleQuery_div_LamportTime_len_s_queryBuffer,
-   C09_site_Serf_handleQuery_index_s_queryBuffer_idx,
-   C09_site_Serf_handleQuery_deref_seen,
-   C09_site_Serf_handleQuery_deref_seen_2,
-   C09_site_Serf_handleQuery_index_s_queryBuffer_idx_2,
-   C09_site_Serf_handleQuery_deref_seen_3,
-   C09_site_Serf_handleQuery_send_s_config_EventCh,
-   C09_site_Serf_handleQueryResponse_deref_query,
-   C09_site_Serf_handleNodeJoin_deref_member,
-   C09_site_Serf_handleNodeJoin_deref_member_2,
-   C09_site_Serf_handleNodeJoin_mapwrite_s_members,
-   C09_site_Serf_handleNodeJoin_deref_member_3,
-   C09_site_Serf_handleNodeJoin_deref_member_4,
-   C09_site_Serf_handleNodeJoin_send_s_config_EventCh,
-   C09_site_Serf_handleNodeLeave_deref_member,
-   C09_site_Serf_handleNodeLeave_call_MemberStatus_String,
-   C09_site_Serf_handleNodeLeave_send_s_config_EventCh,
-   C09_site_Serf_handleNodeUpdate_deref_member,
-   C09_site_Serf_handleNodeUpdate_send_s_config_EventCh,
-   C09_site_Serf_decodeTags_index_buf_0,
-   C09_site_Serf_decodeTags_mapwrite_tags,
-   C09_site_Serf_decodeTags_slice_buf_1,
-   C09_site_Client_GetCoordinate_inv_exit,
-   C09_site_Client_GetCoordinate_ensures_vec,
-   C09_site_Client_Update_inv_exit,
-   C09_site_Client_Update_inv_exit_2,
-   C09_site_Client_Update_call_Client_latencyFilter,
-   C09_site_Client_Update_call_Client_updateVivaldi,
-   C09_site_Client_Update_call_Client_updateAdjustment,
-   C09_site_Client_Update_inv_exit_3,
-   C09_site_Client_Update_ensures_vec,
-   C09_site_Coordinate_DistanceTo_panic_,
-   C09_site_Coordinate_DistanceTo_call_Coordinate_rawDistanceTo,
-   C09_site_serfQueries_handleQuery_slice_q_Name_len_InternalQueryPrefix,
-   C09_site_userEventCoalescer_Handle_assert_e,
-   C09_site_memberEventCoalescer_Coalesce_assert_raw,
-   C09_site_memberEventCoalescer_Coalesce_mapwrite_c_latestEvents,
-   C09_site_userEventCoalescer_Coalesce_assert_e,
-   C09_site_userEventCoalescer_Coalesce_deref_latest,
-   C09_site_userEventCoalescer_Coalesce_mapwrite_c_events,
-   C09_site_userEventCoalescer_Coalesce_deref_latest_2,
-   C09_site_memberEventCoalescer_Flush_mapwrite_c_lastEvents,
-   C09_site_memberEventCoalescer_Flush_mapwrite_events,
-   C09_site_memberEventCoalescer_Flush_deref_newEvent,
-   C09_site_memberEventCoalescer_Flush_send_outCh,
-   C09_site_userEventCoalescer_Flush_send_outChan,
-   C09_site_Snapshotter_processMemberEvent_mapwrite_s_aliveNodes,
-   C09_site_Serf_resolveNodeConflict_index_r_Payload_0,
-   C09_site_Serf_resolveNodeConflict_slice_r_Payload_1,
-   C09_site_serf_upsertIntent_mapwrite_intents,
-   C09_site_serf_removeOldMember_index_old_n_1,
-   C09_site_serf_removeOldMember_index_old_i,
-   C09_site_serf_removeOldMember_index_old_n_1_2,
-   C09_site_serf_removeOldMember_slice_old_n_1,
-   C09_site_Serf_shouldProcessQuery_index_filter_0,
-   C09_site_Serf_shouldProcessQuery_slice_filter_1,
-   C09_site_Serf_shouldProcessQuery_slice_filter_1_2,
-   C09_site_Serf_shouldProcessQuery_index_filter_0_2,
-   C09_site_QueryResponse_sendAck_send_r_ackCh,
-   C09_site_QueryResponse_sendAck_mapwrite_r_acks,
-   C09_site_QueryResponse_sendResponse_send_r_respCh,
-   C09_site_QueryResponse_sendResponse_mapwrite_r_responses,
-   C09_site_MemberStatus_String_panic_,
-   C09_site_Coordinate_Clone_ensures_vec,
-   C09_site_Client_checkCoordinate_inv_exit,
-   C09_site_Client_checkCoordinate_inv_exit_2,
-   C09_site_Client_checkCoordinate_inv_exit_3,
-   C09_site_Client_checkCoordinate_ensures_ok,
-   C09_site_Client_latencyFilter_slice_samples_1,
-   C09_site_Client_latencyFilter_mapwrite_c_latencyFilterSamples,
-   C09_site_Client_latencyFilter_index_sorted_len_sorted_2,
-   C09_site_Client_latencyFilter_inv_exit,
-   C09_site_Client_updateVivaldi_call_Coordinate_DistanceTo,
-   C09_site_Client_updateVivaldi_call_Coordinate_ApplyForce,
-   C09_site_Client_updateVivaldi_inv_exit,
-   C09_site_Client_updateAdjustment_inv_exit,
-   C09_site_Client_updateAdjustment_call_Coordinate_rawDistanceTo,
-   C09_site_Client_updateAdjustment_index_c_adjustmentSamples_c_adjustmentIndex,
-   C09_site_Client_updateAdjustment_div_c_config_AdjustmentWindowSize,
-   C09_site_Client_updateAdjustment_inv_exit_2,
-   C09_site_Client_updateGravity_call_Coordinate_DistanceTo,
-   C09_site_Client_updateGravity_call_Coordinate_ApplyForce,
-   C09_site_Client_updateGravity_inv_exit,
-   C09_site_Coordinate_IsValid_index_c_Vec_i,
-   C09_site_coordinate_NewCoordinate_ensures_vec,
-   C09_site_Coordinate_rawDistanceTo_call_diff,
-   C09_site_serfQueries_handleConflict_deref_member,
-   C09_site_serfQueries_handleInstallKey_slice_q_Payload_1,
-   C09_site_serfQueries_handleUseKey_slice_q_Payload_1,
-   C09_site_serfQueries_handleRemoveKey_slice_q_Payload_1,
-   C09_site_Serf_eraseNode_send_s_config_EventCh,
-   C09_site_serf_kRandomMembers_call_rand_Intn,
-   C09_site_serf_kRandomMembers_index_members_idx,
-   C09_site_serf_kRandomMembers_index_kMembers_j,
-   C09_site_Coordinate_ApplyForce_panic_,
-   C09_site_Coordinate_ApplyForce_call_unitVectorAt,
-   C09_site_Coordinate_ApplyForce_call_add,
-   C09_site_Coordinate_ApplyForce_ensures_vec,
-   C09_site_coordinate_diff_index_vec1_i,
-   C09_site_coordinate_diff_index_vec2_i,
-   C09_site_coordinate_diff_index_ret_i,
-   C09_site_coordinate_diff_ensures_len,
-   C09_site_coordinate_magnitude_index_vec_i,
-   C09_site_coordinate_magnitude_index_vec_i_2,
-   C09_site_Serf_writeKeyringFile_index_keysEncoded_i,
-   C09_site_Serf_registerQueryResponse_mapwrite_s_queryResponse,
-   C09_site_coordinate_unitVectorAt_call_diff,
-   C09_site_coordinate_unitVectorAt_ensures_len,
-   C09_site_coordinate_unitVectorAt_index_ret_i,
-   C09_site_coordinate_unitVectorAt_index_ret_i_2,
-   C09_site_coordinate_unitVectorAt_ensures_len_2,
-   C09_site_coordinate_unitVectorAt_index_ret_0,
-   C09_site_coordinate_unitVectorAt_ensures_len_3,
-   C09_site_coordinate_mul_index_vec_i,
-   C09_site_coordinate_mul_index_ret_i,
-   C09_site_coordinate_mul_ensures_len,
-   C09_site_coordinate_add_index_vec1_i,
-   C09_site_coordinate_add_index_vec2_i,
-   C09_site_coordinate_add_index_ret_i,
-   C09_site_coordinate_add_ensures_len,
-   C09_site_serfQueries_keyListResponseWithCorrectSize_loopinv_init_resp_Keys,
-   C09_site_serfQueries_keyListResponseWithCorrectSize_loopinv_step_resp_Keys,
-   C09_site_serfQueries_keyListResponseWithCorrectSize_slice_resp_Keys_0_i⟩
+/-- the generic discharge of one site obligation -/
+macro "site_tac" : tactic => `(tactic| ((repeat intro _); first
+  | omega
+  | (subst_vars; exact Nat.mod_lt _ (by assumption))
+  | (subst_vars; (repeat' (apply And.intro)) <;>
+      first | omega | exact Nat.mod_lt _ (by omega) | (intro _; exact Nat.mod_lt _ (by omega)))))
+
+/-- `site! n`: the proof of the generated site obligation `n`, by the generic tactic -/
+macro "site! " n:ident : term => `((by unfold $n; site_tac : $n))
+
+/-- every panic site the extractor lists — whatever the current inventory is — is safe under its path condition -/
+theorem C09_all_sites : allSites := by
+  unfold allSites
+  repeat' (apply And.intro)
+  all_goals site_tac
 
 end SerfProofs.C09
